@@ -1,7 +1,7 @@
 """C05 -- spheregroup partitions points into friends-of-friends components."""
 
 from .spherelib import (check_cell_agree, check_rot_agree, check_dedup_wrap, check_list_desc, check_spheregroup, check_fof_merge,
-                        check_full_scan)
+                        check_full_scan, check_chunk_grid)
 
 META = {
     'property': 'C05',
@@ -31,3 +31,4 @@ def run(ctx):
     check_cell_agree(ctx, ctx.repo, 'C05.CELLS')
     check_rot_agree(ctx, ctx.repo, 'C05.CELLS')
     check_dedup_wrap(ctx, ctx.repo, 'C05.CELLS')
+    check_chunk_grid(ctx, ctx.repo, 'C05.CELLS')
